@@ -228,7 +228,8 @@ class CallMixin(ExprMixin):
                     # the clause speaks of a local the code has not (definitely) bound at this call: it cannot be
                     # established there; left undischarged, the witness search decides on the real code
                     self.note("clause %s at line %s of %s: %s - not established" % (act[1], node.lineno, self.c.qual, ex))
-                    cond = z3.BoolVal(False)
+                    self.oblige(st, "trace", act[1], z3.BoolVal(False), node.lineno, assume=False, undecidable=str(ex))
+                    continue
                 self.oblige(st, "trace", act[1], cond, node.lineno, assume=True)
             elif act[0] == "set":
                 st.ghost[act[1]] = self.spec_eval(act[2], st, extra=extra, old=self.entry)
